@@ -72,9 +72,14 @@ impl TryFrom<&SnmpOid<'_>> for String {
         // First two subelements
         let first = iter.next().ok_or(SnmpError::InvalidData)?;
         write!(r, "{}.{}", first / 40, first % 40).map_err(|_| SnmpError::InvalidData)?;
-        let mut b = 0u32;
+        let mut b = 0u64;
         for c in iter {
-            b = (b << 7) + ((*c as u32) & 0x7f);
+            b = (b << 7) | ((*c as u64) & 0x7f);
+            // Subidentifiers are limited to 2^32-1 (RFC 2578, 3.5).
+            // Larger ones would be shown as another oid
+            if b > u32::MAX as u64 {
+                return Err(SnmpError::InvalidData);
+            }
             if c & 0x80 == 0 {
                 write!(r, ".{}", b).map_err(|_| SnmpError::InvalidData)?;
                 b = 0;
